@@ -31,15 +31,6 @@ def specOf : Kind → Int → Int → Int
 def InI64 (x : Int) : Prop := -9223372036854775808 ≤ x ∧ x ≤ 9223372036854775807
 instance (x : Int) : Decidable (InI64 x) := by unfold InI64; exact inferInstance
 
-/-- "the nanosecond timestamp of the reading `(ts, sub)` fits in 64 bits" as `timestamp_nanos_opt`
-decides it: the wall-clock line position `ts·10⁹ + sub` is an `i64` and, for a negative `ts`, so is
-`(ts + 1)·10⁹`.  For a non-leap field (`sub < 10⁹`) the second condition follows from the first; with
-a leap-second field it excludes the readings with `ts = −9223372038` (1677-09-21T00:12:42 wall clock),
-whose line position `≥ i64::MIN` is nevertheless refused. -/
-def stampOk (ts sub : Int) : Prop :=
-  InI64 (ts * 1000000000 + sub) ∧ (ts < 0 → -9223372036854775808 ≤ (ts + 1) * 1000000000)
-instance (ts sub : Int) : Decidable (stampOk ts sub) := by unfold stampOk; exact inferInstance
-
 /-- the span for `digits` sub-second digits: 10^(9 − min 9 digits) -/
 def digitSpan (digits : Nat) : Int := 10 ^ (9 - min 9 digits)
 
@@ -55,5 +46,12 @@ def truncSubsecSpec (frac : Int) (digits : Nat) : Int × Int :=
 
 def roundSubsecSpec (frac : Int) (digits : Nat) : Int × Int :=
   fieldOf (leapBase frac) (roundSpec frac (digitSpan digits))
+
+/-- the specified `(field, carried seconds)` pair and the specified signed move of
+`round_subsecs` (`round = true`) / `trunc_subsecs` -/
+def subsecSpec (round : Bool) (frac : Int) (digits : Nat) : Int × Int :=
+  if round then roundSubsecSpec frac digits else truncSubsecSpec frac digits
+def subsecMove (round : Bool) (frac : Int) (digits : Nat) : Int :=
+  (if round then roundSpec frac (digitSpan digits) else truncSpec frac (digitSpan digits)) - frac
 
 end Chrono.Spec.Round
